@@ -146,7 +146,8 @@ func zzH_C11_append_root(t *zzT) {
 // zzH_C11_append_root, ≡ the root after appending one by one). calculateRoot fans out one goroutine
 // per half; the goroutines share nothing but their result channels, sched=0 switches only when the
 // running goroutine blocks, and the engine still explores every order in which the blocked parents
-// and their children can be resumed (no partial-order reduction), which bounds N here.
+// and their children can be resumed (no partial-order reduction), which bounds N here: n <= 4 is 1914
+// paths, n = 5 alone is more than 346000 (not exhausted in 20 minutes).
 //
 //zz:opt loop=40 require=end sched=0
 //zz:quick N=4 W=2
